@@ -326,12 +326,13 @@ def ordering_rule(an: Analysis, rep, rule: str, entries):
     rep.add(rule, "key-less orderings examined", True, "code_data/", f"{n} call(s) in the closures of {list(entries)}", nontrivial=False)
 
 
-def truthiness_rule(an: Analysis, rep, rule: str, entries, fields):
+def truthiness_rule(an: Analysis, rep, rule: str, entries, fields, what=None):
     """A value where 0 is meaningful and None means 'absent' is tested for absence with `is None`, never by truthiness.
 
     `fields` lists (class, field) pairs declared Optional[int] whose 0 is a real value (a line number relative to the first line).
     `x or y`, `if x`, `not x` on such a value treat line 0 like 'no line'."""
-    rep.rule(rule, "Optional line numbers are tested with `is None`, not by truthiness (0 is a line)", 1)
+    rep.rule(rule, "Optional values whose falsy member is a real value are tested with `is None`, not by truthiness" if what else
+             "Optional line numbers are tested with `is None`, not by truthiness (0 is a line)", 1)
     names = {f for _, f in fields}
     n = 0
 
@@ -360,8 +361,9 @@ def truthiness_rule(an: Analysis, rep, rule: str, entries, fields):
                         fld = from_field(it, x)
                         if fld:
                             rep.add(rule, f"{f.qual}::truthiness of `{norm_src(x)}`", False, loc(f.module, x),
-                                    f"`{norm_src(x)}` can hold a value of `{fld}` (Optional[int], where 0 is the code object's first line): testing it by truthiness treats line 0 like "
-                                    f"'no line' - e.g. after a return to the first line the next line delta is computed from a stale line", config=entry)
+                                    (f"`{norm_src(x)}` holds {what}: testing it by truthiness treats the falsy value like 'absent', so it is silently dropped" if what else
+                                     f"`{norm_src(x)}` can hold a value of `{fld}` (Optional[int], where 0 is the code object's first line): testing it by truthiness treats line 0 like "
+                                     f"'no line' - e.g. after a return to the first line the next line delta is computed from a stale line"), config=entry)
     rep.add(rule, "truthiness tests examined", True, "code_data/", f"{n} name / attribute operands of boolean contexts in the closures of {list(entries)}", nontrivial=False)
 
 
@@ -425,3 +427,52 @@ def substring_rule(an: Analysis, rep, rule: str, entries):
                             f"`{norm_src(right)}` is one string (declared {sorted(leaves)}), so `{norm_src(c)}` asks whether the left side is a *substring* of it: the name 'a' is "
                             f"'in' the name 'args', 'val' in 'values' - a parameter whose name is contained in another's is given the other's kind", config=entry)
     rep.add(rule, "membership tests examined", True, "code_data/", f"{n} `in` tests whose right operand is a part of the argument, in the closures of {list(entries)}", nontrivial=False)
+
+
+def local_memo_rule(an: Analysis, rep, rule: str, entries):
+    """A result remembered in a local dict (`if K in D: x = D[K]` / `else: x = D[K] = f(a, b, c)`) is keyed by everything the call is
+    given that changes from one loop iteration to the next: an argument missing from the key makes a later, different call reuse the
+    first answer."""
+    rep.rule(rule, "a local memo of call results is keyed by every loop-varying argument of the call", 0)
+    n = 0
+    from .encode_model import parent_map
+    for entry in entries:
+        for f in an.closure(entry):
+            pm = parent_map(f.module)
+            for st in ast.walk(f.node):
+                if not (isinstance(st, ast.Assign) and isinstance(st.value, ast.Call)):
+                    continue
+                subs = [t for t in st.targets if isinstance(t, ast.Subscript) and isinstance(t.value, ast.Name)]
+                if not subs:
+                    continue
+                D, K = subs[0].value.id, subs[0].slice
+                # is D tested with `K in D` / read with D[K] / D.get(K) elsewhere in the function?  (a memo, not just a result table)
+                reads = [x for x in ast.walk(f.node) if (isinstance(x, ast.Compare) and isinstance(x.ops[0], ast.In) and isinstance(x.comparators[0], ast.Name) and x.comparators[0].id == D
+                                                         and ast.dump(x.left) == ast.dump(K))]
+                if not reads:
+                    continue
+                # loop-varying names: targets of the enclosing loops
+                cur, varying, determined = st, set(), {}
+                while id(cur) in pm and pm[id(cur)] is not f.node:
+                    cur = pm[id(cur)]
+                    if isinstance(cur, ast.For):
+                        varying |= {x.id for x in ast.walk(cur.target) if isinstance(x, ast.Name)}
+                        # `for i, v in enumerate(xs)`: v is a function of i (and of the outer indices)
+                        if isinstance(cur.target, ast.Tuple) and len(cur.target.elts) == 2 and isinstance(cur.target.elts[0], ast.Name) and isinstance(cur.iter, ast.Call) \
+                                and isinstance(cur.iter.func, ast.Name) and cur.iter.func.id == "enumerate":
+                            for x in ast.walk(cur.target.elts[1]):
+                                if isinstance(x, ast.Name):
+                                    determined[x.id] = cur.target.elts[0].id
+                if not varying:
+                    continue
+                n += 1
+                keynames = {x.id for x in ast.walk(K) if isinstance(x, ast.Name)}
+                call = st.value
+                argnames = {x.id for a in list(call.args) + [k.value for k in call.keywords] for x in ast.walk(a) if isinstance(x, ast.Name)}
+                missing = sorted(v for v in (argnames & varying) - keynames if determined.get(v) not in keynames)
+                rep.add(rule, f"{f.qual}::memo {D}[{norm_src(K)}]", not missing, loc(f.module, st),
+                        f"the key `{norm_src(K)}` names every loop-varying argument of `{norm_src(call.func)}`" if not missing else
+                        f"`{norm_src(st)[:70]}` remembers the result under `{norm_src(K)}`, but the call is also given {missing}, which changes from one iteration to the next: a later "
+                        f"call with the same key and a different {missing[0]} gets the first result (e.g. two relative jumps with the same operand at different offsets get one target)",
+                        config=entry)
+    rep.add(rule, "local memos examined", True, "code_data/", f"{n} dict-memoised call(s) in the closures of {list(entries)}", nontrivial=False)
